@@ -145,16 +145,36 @@ def requeue_functions(crate):
 
 
 def merge_functions(crate):
-    """move_to: calls a union-find setter directly and a hashcons writer directly"""
+    """move_to: calls a union-find setter directly and a hashcons writer directly — or through a private
+    single-use helper it was split into (the node-migration loop extracted: looked through with the inline view)"""
+    key = "merge_functions"
+    if key in crate._cache:
+        return crate._cache[key][0]
     ufs = set(uf_setters(crate))
     hw = set(hashcons_writers(crate))
+    keep = tuple(short(x).split("::")[-1] for x in (ufs | hw))
     out = []
+    absorbed = set()
     for b in crate.fns():
         if b.id in ufs or b.id in hw:
             continue
-        if calls_to(crate, b, ufs) and calls_to(crate, b, hw):
+        if not calls_to(crate, b, ufs):
+            continue
+        if calls_to(crate, b, hw):
             out.append(b.id)
-    return sorted(out)
+            continue
+        v = mir.inline_view(crate, b, keep=keep)
+        if v is not b and calls_to(crate, v, hw):
+            out.append(b.id)
+            absorbed |= {f for f in getattr(v, "inlined", []) if calls_to(crate, crate.bodies[f], hw)}
+    crate._cache[key] = (sorted(out), absorbed)
+    return crate._cache[key][0]
+
+
+def merge_helpers(crate):
+    """private single-use helpers of the class merge that write the node index (part of the merge, not a re-insert function)"""
+    merge_functions(crate)
+    return crate._cache["merge_functions"][1]
 
 
 def leader_union_functions(crate):
@@ -700,7 +720,7 @@ def reinsert_functions(crate):
     class merge nor the leader union"""
     hw = set(hashcons_writers(crate))
     reach = set(crate.reachable_from(rebuild_roots(crate) or drain_functions(crate)))
-    excl = set(merge_functions(crate)) | set(leader_union_functions(crate)) | hw
+    excl = set(merge_functions(crate)) | merge_helpers(crate) | set(leader_union_functions(crate)) | hw
     out = []
     for b in crate.fns():
         if b.id in excl or b.id not in reach:
@@ -900,12 +920,16 @@ def _closure_of_role(crate, r):
 def result_sinks(b, out_param):
     """call sites that add to the function's result collection: extend/push/append on the `&mut Vec` out-parameter, or on
     the local collection the function returns"""
-    ret = strip_role(b.role_of_local(0))
+    rets = [strip_role(b.role_of_local(0))]
+    for d in b.defs().get(0, []):          # a function with several arms returns a different collection in each
+        if d["kind"] == "assign":
+            rets.append(strip_role(b.role_of_rvalue(d["rv"])))
+    rets = [r for r in rets if isinstance(r, tuple) and r[0] == "call" and r[1] in ("new", "default", "with_capacity")]
     out = []
     for c in b.calls:
         if b.blocks[c.bb]["cleanup"] or not c.callee or c.callee.name not in ("extend", "push", "append", "extend_from_slice") or not c.args:
             continue
         r = strip_role(b.role_of_operand(c.args[0]))
-        if r == ("param", out_param) or (isinstance(ret, tuple) and ret[0] == "call" and ret[1] in ("new", "default", "with_capacity") and r == ret):
+        if r == ("param", out_param) or r in rets:
             out.append(c)
     return out
